@@ -406,6 +406,9 @@ func (g *Gen) boundaryTable() []MsgSpec {
 		mut(func(d *DocSpec) { d.Contexts = c })
 	}
 	mut(func(d *DocSpec) { d.NoContext = true })
+	mut(func(d *DocSpec) { d.EmptyContexts = true })
+	mut(func(d *DocSpec) { d.EmptyController = true })
+	mut(func(d *DocSpec) { d.Controller = []string{"", ""} })
 	for _, cs := range [][]string{{good}, {"did:panacea:short"}, {good, "x"}, {""}, {good, g.env.Dids[4]}} {
 		c := cs
 		mut(func(d *DocSpec) { d.Controller = c })
